@@ -1053,6 +1053,238 @@ func (e *c44Env) dsnDeletes(routesOut *verifh.Writer, made []c44DSN) {
 	}
 }
 
+// ---- sweep of every method that is not GET over the administrative and DSN endpoints -----------------------------
+//
+// The routes come from the REAL route table (so a route added later is swept too): every route below /admin/ and
+// /dsns/ (the table / transaction routes of a DSN are exercised by dsnUse) whose method is not GET, every
+// {{parameter}} instantiated from the pool of existing names, with a corpus of bodies per resource: no body, empty
+// documents, bodies that change nothing (only the name; a value that is already stored), bodies that change exactly
+// one field, a body for another record, a malformed body. Methods that are not registered for an endpoint are sent
+// too (two bodies). The oracle is the same scan as everywhere else: no stored secret in any reply.
+
+// c44SweepSelected: the endpoint patterns of the sweep.
+func c44SweepSelected(endpoint string) bool {
+	if strings.HasPrefix(endpoint, "/admin/") {
+		return true
+	}
+
+	if !strings.HasPrefix(endpoint, "/dsns/") {
+		return false
+	}
+
+	for _, s := range []string{"/tables", "/begin", "/commit", "/rollback"} {
+		if strings.Contains(endpoint, s) {
+			return false
+		}
+	}
+
+	return true
+}
+
+// c44SweepBodies: the bodies sent to one instantiated path. last is the value of the last {{parameter}} ("" = none).
+func (e *c44Env) c44SweepBodies(endpoint, last string, registered bool) []string {
+	q := func(v string) string { b, _ := json.Marshal(v); return string(b) }
+	res := []string{"", `{}`}
+
+	if last != "" {
+		res = append(res, `{"name":`+q(last)+`}`)
+	}
+
+	if !registered {
+		return res
+	}
+
+	res = append(res, `[]`, `null`, `{"name":`)
+
+	// quick tier: a write of the file-backed stores costs 0.1 - 3 s (creating a user, a grant, a DSN record), the
+	// requests that store something new are sent to the database-backed stores only; every reply shape is still seen
+	thin := !verifh.Thorough() && e.backend == "file"
+
+	switch {
+	case strings.HasPrefix(endpoint, "/admin/users"):
+		if last == "" {
+			tok := c44Token(e.rnd, "P")
+			name := fmt.Sprintf("c44swp%d", e.requests)
+			e.fixed = append(e.fixed, c44Canary{"user-password", "plain-text password sent when creating user " + name, tok})
+			res = append(res, `{"name":"c44alice"}`, `{"name":"c44alice","password":`+q(tok)+`}`)
+
+			if !thin {
+				res = append(res,
+					`{"name":`+q(name)+`}`,
+					`{"name":`+q(name+"x")+`,"password":`+q(tok)+`,"permissions":[]}`,
+					`{"name":`+q(name)+`,"password":`+q(tok)+`,"permissions":["ego.logon"]}`,
+					`{"name":`+q(name)+`,"password":`+q(tok)+`,"permissions":["ego.logon"]}`)
+			}
+
+			break
+		}
+
+		n := q(last)
+		res = append(res,
+			`{"name":`+n+`,"permissions":[]}`,
+			`{"name":`+n+`,"password":""}`,
+			`{"name":`+n+`,"password":"","permissions":[]}`,
+			`{"permissions":[]}`,
+			`{"name":"c44carol"}`,
+			`{"name":`+n+`,"permissions":["+c44.sweep"]}`,
+			`{"name":`+n+`,"permissions":["+c44.sweep"]}`, // the second time it changes nothing
+			`{"name":`+n+`}`,
+			`{"name":`+n+`,"permissions":["-c44.sweep"]}`,
+			`{"name":`+n+`,"permissions":["-c44.sweep"]}`)
+
+		// the requests authenticate with the administrator's password: it stays
+		if last != c44Admin {
+			res = append(res, `{"name":`+n+`,"password":`+q(c44Token(e.rnd, "P"))+`}`, `{"name":`+n+`}`)
+		}
+	case strings.HasPrefix(endpoint, "/dsns/"+defs.PermissionsPseudoTable):
+		res = append(res, `{"dsn":"c44pg","user":"c44alice","actions":[]}`)
+
+		if !thin {
+			res = append(res,
+				`{"dsn":"c44pg","user":"c44alice","actions":["+`+defs.ReadPriv+`"]}`,
+				`{"dsn":"c44pg","user":"c44alice","actions":["+`+defs.ReadPriv+`"]}`,
+				`{"dsn":"c44pg","user":"c44alice","actions":["-`+defs.ReadPriv+`"]}`)
+		}
+
+		res = append(res, `{"dsn":"c44pg"}`, `{"items":[]}`, `{"items":[{"dsn":"c44pg","user":"c44alice","actions":[]}]}`)
+	case strings.HasPrefix(endpoint, "/dsns/"):
+		if last == "" {
+			res = append(res, `{"name":"c44pg"}`, `{"name":"c44pg","provider":"postgres"}`,
+				fmt.Sprintf(`{"name":"c44swp%d","provider":"sqlite3","database":"swp.db"}`, e.requests))
+
+			break
+		}
+
+		res = append(res, `{"password":""}`)
+
+		if !thin || last == "c44pg" {
+			res = append(res, `{"restricted":true}`, `{"restricted":false}`, `{"secured":false}`)
+		}
+
+		if !thin {
+			res = append(res, `{"restricted":true}`, `{"restricted":true}`, `{"restricted":false}`, `{"secured":false}`)
+		}
+
+		res = append(res,
+			`{"name":`+q(last)+`,"provider":"postgres","password":""}`,
+			`{"name":"c44pg"}`)
+	case strings.HasPrefix(endpoint, "/admin/config"):
+		res = append(res, `{"ego.runtime.c44.sweep":"1"}`, `{"ego.runtime.c44.sweep":"1"}`, `{"ego.runtime.c44.sweep":""}`)
+
+		// a secret-bearing setting set to the value it already has
+		for _, n := range []string{"ego.server.token.key", "ego.database.password", "ego.server.oauth.client.secret"} {
+			if v := settings.Get(n); v != "" {
+				res = append(res, `{`+q(n)+`:`+q(v)+`}`)
+			}
+		}
+
+		res = append(res, `["ego.server.token.key"]`, `{"ego.server.token.key":null}`)
+	case strings.HasPrefix(endpoint, "/admin/loggers"):
+		res = append(res, `{"keep":3}`, `{"keep":3}`, `{"loggers":{}}`, `{"loggers":{"server":true}}`, `{"loggers":{"nosuch":true}}`,
+			`{"file":"c44.log"}`, `{"keep":0,"loggers":{"server":true}}`)
+	case strings.HasPrefix(endpoint, "/admin/tokens"):
+		res = append(res, `["00000000-0000-0000-0000-000000000044"]`, `["00000000-0000-0000-0000-000000000044"]`, `[""]`)
+	case strings.HasPrefix(endpoint, "/admin/caches"):
+		res = append(res, `{"count":7}`, `{"count":7}`, `{"count":0}`)
+	}
+
+	return res
+}
+
+// sweep sends the methods of `methods` to every selected endpoint of the route table. Returns the number of requests.
+func (e *c44Env) sweep(routesOut *verifh.Writer, routes [][2]string, pools map[string][]string, methods []string, adminLast bool) {
+	registered := map[string]bool{}
+	endpoints := []string{}
+
+	for _, rt := range routes {
+		if !c44SweepSelected(rt[1]) {
+			continue
+		}
+
+		if !registered["* "+rt[1]] {
+			registered["* "+rt[1]] = true
+			endpoints = append(endpoints, rt[1])
+		}
+
+		registered[rt[0]+" "+rt[1]] = true
+	}
+
+	type item struct{ method, endpoint, path, last string }
+
+	var first, last []item
+
+	for _, ep := range endpoints {
+		for _, m := range methods {
+			for pi, p := range c44Expand(ep, pools) {
+				// quick tier: the DSNs made by dsnPhase differ in the provider spelling only; the first six names are enough
+				if !verifh.Thorough() && m != http.MethodDelete && strings.HasPrefix(ep, "/dsns/") && pi >= 6 {
+					break
+				}
+
+				it := item{method: m, endpoint: ep, path: p}
+
+				if strings.Contains(ep, "{{") {
+					seg := strings.Split(strings.TrimSuffix(p, "/"), "/")
+					it.last = seg[len(seg)-1]
+				}
+
+				// the record of the requester goes last when records are removed
+				if adminLast && it.last == c44Admin {
+					last = append(last, it)
+				} else {
+					first = append(first, it)
+				}
+			}
+		}
+	}
+
+	for _, it := range append(first, last...) {
+		reg := registered[it.method+" "+it.endpoint]
+		bodies := e.c44SweepBodies(it.endpoint, it.last, reg)
+
+		if it.method == http.MethodDelete {
+			bodies = bodies[:1]
+		}
+
+		t0 := time.Now()
+		codes := map[int]int{}
+		prev := ""
+
+		for bi, body := range bodies {
+			var b []byte
+			if body != "" {
+				b = []byte(body)
+			}
+
+			accept := ""
+			if bi%4 == 3 {
+				accept = "bearer;application/json"
+			}
+
+			resp := e.do(it.method, it.path, b, accept)
+			in := it.method + " " + it.path + " " + body + " (route " + it.endpoint + ")"
+
+			if prev != "" {
+				in += "   [previous request to this path: " + prev + "]"
+			}
+
+			e.scan("mutating-route", in, resp, e.canaries())
+			e.stats.Inc("sweep_requests")
+			e.stats.Inc("sweep_requests_" + it.method)
+
+			if reg && resp.code/100 == 2 {
+				e.stats.Inc("sweep_2xx_" + it.method)
+			}
+
+			codes[resp.code]++
+			prev = it.method + " " + body
+		}
+
+		routesOut.Write(map[string]any{"backend": e.backend, "phase": "sweep", "method": it.method, "route": it.endpoint, "path": it.path,
+			"registered": reg, "bodies": len(bodies), "codes": fmt.Sprint(codes), "ms": time.Since(t0).Milliseconds()})
+	}
+}
+
 // c44CPU: processor time (user + system) used by the test process so far.
 func c44CPU() time.Duration {
 	var ru syscall.Rusage
@@ -1484,6 +1716,11 @@ func c44Run(t *testing.T, backend string, salt int64, stats *verifh.Stats, fails
 		e.scan("config-single", "POST /admin/config "+string(body), resp, e.canaries())
 	}
 
+	// ---- every other method of every administrative / DSN endpoint, with bodies that change nothing, one field, or are empty
+	pools["id"] = []string{"00000000-0000-0000-0000-000000000044", "nosuch"}
+	e.sweep(routesOut, routes, pools, []string{http.MethodPatch, http.MethodPut, http.MethodPost}, false)
+	phase("sweep")
+
 	// ---- deletes echo the deleted record
 	e.dsnDeletes(routesOut, madeDSNs)
 	runScript([]call{
@@ -1492,6 +1729,10 @@ func c44Run(t *testing.T, backend string, salt int64, stats *verifh.Stats, fails
 		{"DELETE", "/admin/users/c44dave", "", ""},
 		{"DELETE", "/admin/users/c44bob", "", ""},
 	})
+
+	// DELETE of every remaining (and every already deleted) record; the requester's own record last
+	e.sweep(routesOut, routes, pools, []string{http.MethodDelete}, true)
+	phase("sweep_delete")
 
 	stats.Add("requests", e.requests)
 
